@@ -30,6 +30,14 @@ def has_internal_cycle(net):
     return exactlp._rank(rows) < len(cols)
 
 
+def cycle_dimension(net):
+    cols = [c for c in net if not families.is_boundary(c)]
+    if not cols:
+        return 0
+    rows = [[F(c[i]) for c in cols] for i in range(len(net[0]))]
+    return len(cols) - exactlp._rank(rows)
+
+
 def start_vectors(fba, z):
     """Optimal solutions with internal fluxes pushed to their extremes (cycle loaded)."""
     lp = fba.lp()
@@ -210,7 +218,8 @@ def explore(ctx):
     n_self = exactlp.selftest(limit=3000)
     nets = [n for n in families.networks(P["nm"], P["nr"], P["K"]) if has_internal_cycle(n)]
     if ctx.tier == "quick":
-        nets = [n for n in nets if len(n) <= 3 or sum(1 for c in n if families.is_boundary(c)) >= 1]
+        nets = [n for n in nets if len(n) <= 3 or sum(1 for c in n if families.is_boundary(c)) >= 1
+                or cycle_dimension(n) >= 2]
     off = ctx.seed % len(nets)
     nets = nets[off:] + nets[:off]
     payloads = [{"params": P, "nets": nets[i:i + 1]} for i in range(0, len(nets), 1)]
